@@ -60,7 +60,7 @@ def build_docs(rng, n_create, n_delete, n_other, n_replace, two_ids, dup_ids=Fal
         docs.append(B.msg_doc('roDelete', nxt() + (0 if dup_ids else 1000)))
     if two_ids and len(docs) >= 2:
         j = rng.randrange(len(docs))
-        docs[j] = docs[j].replace('<roID>RO</roID>', '<roID>OTHER</roID>', 1)
+        docs[j] = docs[j].replace('<roID>RO</roID>', rng.choice(['<roID>OTHER</roID>', '<roID />', '<roID> RO</roID>']), 1)
     if rng.random() < 0.5 and len(docs) >= 2:
         # hand the message IDs out again in a random order: the roCreate need not be the first message
         import re
